@@ -33,11 +33,81 @@ def run(repo, chk):
     enc = need(cls.methods.get('_encode_tail'), 'C17: _encode_tail missing')
     chk.touch(f)
     chk.touch(enc)
+    from .common import renamed
+    f = renamed(f, _decoder_roles(f))
+    enc = renamed(enc, _encoder_roles(enc))
     rule_a(chk, f)
     rule_b(chk, f, enc)
     rule_c(chk, cls)
     rule_d(chk, f)
     rule_e(repo, chk, cls, f)
+
+
+def _decoder_roles(f):
+    """{actual local name: role name} of the frame decoder, found by what each local is computed from."""
+    dv = f.params[1]
+    m = {}
+    for n in walk_no_defs(f.node):
+        if not (isinstance(n, ast.Assign) and len(n.targets) == 1 and isinstance(n.targets[0], ast.Name)):
+            continue
+        t, v = n.targets[0].id, src(n.value).replace(' ', '')
+        if v in (f'{dv}[1]&127', f'{dv}[1]&0x7f', f'{dv}[1]&0x7F'):
+            m[t] = 'payload_length'
+        elif f'{dv}[1]' in v and ('128' in v or '0x80' in v.lower()):
+            m[t] = 'masking'
+        elif v in (f'{dv}[0]&15', f'{dv}[0]&0xF', f'{dv}[0]&0xf', f'{dv}[0]&0x0f', f'{dv}[0]&0x0F'):
+            m[t] = 'opcode'
+        elif f'{dv}[0]' in v and ('128' in v or '0x80' in v.lower()):
+            m[t] = 'final'
+        elif isinstance(n.value, ast.Constant) and n.value.value == 2 and any(isinstance(w, ast.Subscript) and src(w.value) == dv and isinstance(w.slice, ast.Slice)
+                                                                                 and w.slice.lower is not None and src(w.slice.lower) == t for w in walk_no_defs(f.node)):
+            m[t] = 'offset'
+    for n in walk_no_defs(f.node):
+        if isinstance(n, ast.Assign) and len(n.targets) == 1 and isinstance(n.targets[0], ast.Name) and isinstance(n.value, ast.List) and not n.value.elts \
+                and 'msgs' not in m.values():
+            m[n.targets[0].id] = 'msgs'
+        if isinstance(n, ast.For) and isinstance(n.iter, ast.Call) and call_name(n.iter) == 'enumerate' and isinstance(n.target, ast.Tuple) and len(n.target.elts) == 2 \
+                and all(isinstance(x, ast.Name) for x in n.target.elts):
+            m[n.target.elts[0].id], m[n.target.elts[1].id] = 'i', 'c'
+    off = next((k for k, v in m.items() if v == 'offset'), 'offset')
+    pl = next((k for k, v in m.items() if v == 'payload_length'), 'payload_length')
+    for n in walk_no_defs(f.node):
+        if isinstance(n, ast.Assign) and len(n.targets) == 1 and isinstance(n.targets[0], ast.Name) and isinstance(n.value, ast.Subscript) and src(n.value.value) == dv \
+                and isinstance(n.value.slice, ast.Slice) and n.value.slice.lower is not None and n.value.slice.upper is not None and src(n.value.slice.lower) == off:
+            up = src(n.value.slice.upper).replace(' ', '')
+            if up == f'{off}+4':
+                m[n.targets[0].id] = 'masking_key'
+            elif up == f'{off}+{pl}':
+                m[n.targets[0].id] = 'msg'
+    return m
+
+
+def _encoder_roles(enc):
+    m = {}
+    for n in walk_no_defs(enc.node):
+        if isinstance(n, ast.Assign) and len(n.targets) == 1 and isinstance(n.targets[0], ast.Name):
+            v = src(n.value).replace(' ', '')
+            if v == 'bytearray()' and not m.get(n.targets[0].id):
+                m[n.targets[0].id] = 'tail'
+            elif 'urandom(4)' in v or 'randint(0,255)' in v:
+                m[n.targets[0].id] = 'masking_key'
+    for n in walk_no_defs(enc.node):
+        if isinstance(n, ast.For) and isinstance(n.iter, ast.Call) and call_name(n.iter) == 'enumerate' and isinstance(n.target, ast.Tuple) and len(n.target.elts) == 2:
+            a, b = n.target.elts
+            if isinstance(a, ast.Name) and isinstance(b, ast.Name):
+                m[a.id], m[b.id] = 'i', 'c'
+    return m
+
+
+def _writer_roles(w):
+    m = {}
+    for n in walk_no_defs(w.node):
+        if isinstance(n, ast.Assign) and len(n.targets) == 1 and isinstance(n.targets[0], ast.Name):
+            if isinstance(n.value, ast.Constant) and n.value.value == 128:
+                m[n.targets[0].id] = 'first'
+            elif src(n.value).replace(' ', '') == 'bytearray()':
+                m[n.targets[0].id] = 'frame'
+    return m
 
 
 def _len_fact_edge(dv, need_expr):
@@ -337,6 +407,8 @@ def rule_e(repo, chk, cls, f):
     # write handler
     w = need(cls.methods.get('_on_write'), 'C17.e: write handler missing')
     chk.touch(w)
+    from .common import renamed
+    w = renamed(w, _writer_roles(w))
     gw = w.cfg()
     outs = [n for n in gw.nodes if n.kind == 'stmt' and any(r == 'self' for r, _c in pat.method_calls(n.ast, '_write'))]
     for n in outs:
@@ -349,7 +421,7 @@ def rule_e(repo, chk, cls, f):
     chk.ob('e', w.ref, 'written frames are FIN frames with opcode 1 (text) for str and 2 (binary) otherwise', ok, loc(w, w.node), discr='write-opcodes')
     txt = [n for n in gw.nodes if n.kind == 'stmt' and isinstance(n.ast, ast.AugAssign) and src(n.ast.target) == 'first' and src(n.ast.value) == '1']
     for n in txt:
-        q = pat.guarded_by(gw, n, pat.test_edge(lambda t, pol: pol == 'T' and src(t).replace(' ', '') == 'isinstance(data,str)'))
+        q = pat.guarded_by(gw, n, pat.test_edge(lambda t, pol: pol == 'T' and isinstance(t, ast.Call) and call_name(t) == 'isinstance' and len(t.args) == 2 and src(t.args[1]) == 'str'))
         chk.ob('e', w.ref, 'the text opcode is used for str payloads only', q is None, loc(w, n.ast), discr='text-for-str')
     cl = need(cls.methods.get('_on_close'), 'C17.e: close handler missing')
     chk.touch(cl)
